@@ -4,6 +4,7 @@ import (
 	"errors"
 	"fmt"
 
+	"github.com/nspcc-dev/neofs-node/pkg/util/verifhook"
 	apistatus "github.com/nspcc-dev/neofs-sdk-go/client/status"
 	"github.com/nspcc-dev/neofs-sdk-go/object"
 	"go.uber.org/zap"
@@ -56,6 +57,7 @@ func (s *Shard) Put(obj *object.Object, objBin []byte) error {
 		}
 		logOp(s.log, putOp, addr)
 	}
+	verifhook.Point("shard.put.afterData", addr)
 
 	if !m.NoMetabase() {
 		diff, metaErr := s.metaBase.PutCounted(obj)
